@@ -106,6 +106,20 @@ def isSpace (c : Char) : Bool :=
 
 def stripLine (l : List Char) : List Char := ((l.dropWhile isSpace).reverse.dropWhile isSpace).reverse
 
+/-- Python text mode with universal newlines followed by `readlines()`: a line ends at `\n`, `\r\n` or `\r` and nowhere else; a
+    trailing terminator starts no further line. (The terminators themselves are dropped: `strip()` removes them anyway.) -/
+def splitAux : List Char → List Char → List (List Char)
+  | [], cur => if cur.isEmpty then [] else [cur.reverse]
+  | '\r' :: '\n' :: rest, cur => cur.reverse :: splitAux rest []
+  | '\r' :: rest, cur => cur.reverse :: splitAux rest []
+  | '\n' :: rest, cur => cur.reverse :: splitAux rest []
+  | c :: rest, cur => splitAux rest (c :: cur)
+
+def splitLines (content : List Char) : List (List Char) := splitAux content []
+
+/-- `[line.strip() for line in open(path).readlines()]` -/
+def readLines (content : List Char) : List (List Char) := (splitLines content).map stripLine
+
 def Arg.expand : Arg → List (List Char)
   | .file ls => ls.map stripLine
   | .lit s => [s]
